@@ -268,6 +268,18 @@ func (r *committedReader) readLoop(
 	var readSize int
 LOOP:
 	for {
+		if r.hwSeg != nil && r.seg != r.hwSeg && r.seg.BaseOffset == r.hwSeg.BaseOffset {
+			// The segment holding the HW was replaced (compaction or
+			// truncation) after we looked up the HW position. We got to its
+			// replacement through a fresh segment list, so resolve the HW
+			// position again or the read limit below would not be applied.
+			hwIdx, hwPos, err := getHWPos(segments, r.hw)
+			if err != nil {
+				return n, err
+			}
+			r.hwSeg = segments[hwIdx]
+			r.hwPos = hwPos
+		}
 		lim := int64(len(p[n:]))
 		if r.seg == r.hwSeg {
 			// If we're reading from the HW segment, read up to the HW pos.
